@@ -354,7 +354,8 @@ def _run_shard(args):
             from hypothesis import HealthCheck, Phase, given, settings
 
             strat = facet["strategy"](tier)
-            phases = [Phase.generate, Phase.shrink] if True else [Phase.generate]
+            # facets with an own minimiser (program cases) skip Hypothesis' shrinker (hard 5-minute cap, slow on programs)
+            phases = [Phase.generate] if facet.get("minimize") else [Phase.generate, Phase.shrink]
             sett = settings(
                 max_examples=max(1, n_examples),
                 database=None,
@@ -373,11 +374,25 @@ def _run_shard(args):
                 run_case(case)
 
             try:
-                # bound shrinking effort: hypothesis stops shrinking after 5 min by itself; quick tier
-                # additionally caps through max_shrinks-like budget by limiting examples per failure.
                 test()
             except CheckFailure:
                 out["failure"] = state["last_failure"]
+                if facet.get("minimize") and out["failure"] is not None:
+                    target_oracle = out["failure"]["oracle"]
+
+                    def fails(c):
+                        state["last_failure"] = None
+                        try:
+                            run_case(c, record=False)
+                        except CheckFailure as e2:
+                            return e2.oracle == target_oracle
+                        except HarnessError:
+                            return False
+                        return False
+
+                    best = facet["minimize"](out["failure"]["case"], fails)
+                    if fails(best) and state["last_failure"] is not None:
+                        out["failure"] = state["last_failure"]
             except hypothesis.errors.Unsatisfiable as e:
                 raise HarnessError(f"strategy unsatisfiable for {facet_name}: {e}")
             except BaseException as e:
